@@ -17,7 +17,7 @@ def run(chk):
                      VERIF_N="200" if thorough else "12"), timeout=1500)
     resf = os.path.join(wd, "c15_result.json")
     if not os.path.exists(resf):
-        raise vlib.MachineryError("C15 driver produced no result:\n" + t["out"][-3000:])
+        raise vlib.driver_failed("C15 driver produced no result", t["out"])
     res = json.load(open(resf))
     for v in res["violations"] or []:
         chk.violation(v["sig"], v["desc"], dict(kind="c15", detail=v))
